@@ -91,6 +91,13 @@ pub struct Extract {
     pub craft_fail: bool,
     pub id_len: usize,
     pub id_seed: u64,
+    /// representation of the master public key stored in the master-key object (sm9util::g1_in_rep / g2_in_rep kinds; 1 = what g_mul returns)
+    #[serde(default = "one_u8")]
+    pub pub_rep: u8,
+}
+
+fn one_u8() -> u8 {
+    1
 }
 
 fn check_extract(c: &Extract) -> CaseResult {
@@ -120,7 +127,8 @@ fn check_extract(c: &Extract) -> CaseResult {
     let kl = to_limbs(&k);
     let desc = format!("hid={:02x} k={:x} |ID|={}", hid, k, id.len());
     if hid == 1 {
-        let msk = Sm9SignMasterKey { ks: kl, ppubs: TwistPoint::g_mul(&kl) };
+        // the extraction depends on (ks, ID) only: the public key travels along in whatever representation the caller stored it
+        let msk = Sm9SignMasterKey { ks: kl, ppubs: g2_in_rep(&r9::p2_mul(&k), Some(&k), c.pub_rep, c.id_seed) };
         let got = catch(|| msk.extract_key(&id)).map_err(|p| Fail { key: "entry=Sm9SignMasterKey::extract_key outcome=panic".into(), detail: format!("{}: {}", desc, p) })?;
         match (&got, &want) {
             (None, None) => {}
@@ -133,7 +141,7 @@ fn check_extract(c: &Extract) -> CaseResult {
             (None, Some(_)) => return fail("entry=Sm9SignMasterKey::extract_key input=valid outcome=none", desc),
         }
     } else {
-        let msk = Sm9EncMasterKey { ke: kl, ppube: Point::g_mul(&kl) };
+        let msk = Sm9EncMasterKey { ke: kl, ppube: g1_in_rep(&r9::p1_mul(&k), Some(&k), c.pub_rep, c.id_seed) };
         let got = catch(|| if hid == 3 { msk.extract_key(&id) } else { msk.extract_exch_key(&id) }).map_err(|p| Fail { key: format!("entry=Sm9EncMasterKey::extract{} outcome=panic", if hid == 3 { "_key" } else { "_exch_key" }), detail: format!("{}: {}", desc, p) })?;
         let what = if hid == 3 { "Sm9EncMasterKey::extract_key" } else { "Sm9EncMasterKey::extract_exch_key" };
         match (&got, &want) {
@@ -147,7 +155,7 @@ fn check_extract(c: &Extract) -> CaseResult {
             (None, Some(_)) => return fail(format!("entry={} input=valid outcome=none", what), desc),
         }
     }
-    pass(true, format!("extract/hid{}{}", hid, if c.craft_fail { "/H1+k=0" } else { "" }))
+    pass(true, format!("extract/hid{}{}/pub-rep{}", hid, if c.craft_fail { "/H1+k=0" } else { "" }, c.pub_rep % 6))
 }
 
 pub fn run(ctx: &Ctx) {
@@ -155,7 +163,7 @@ pub fn run(ctx: &Ctx) {
     let n = pr.n.clone();
     ctx.set_rule(
         "Ha cases: 40-byte values q(N-1)+r for r in {0,1,2,3,N-4,N-3,N-2} and q in {0,1,2, random, q_max-2..q_max} (the quotient-estimate edge), values whose top 64 bits are all ones, boundary patterns, uniform; \
-         H1/H2 through the hook for identities/messages of 0..300 bytes, hid in {1,2,3}; key extraction for master keys {1, 2, N-2, N-1, Annex, uniform} x random identities, and master keys crafted as N - H1(ID||hid) so that extraction must report failure. \
+         H1/H2 through the hook for identities/messages of 0..300 bytes, hid in {1,2,3}; key extraction for master keys {1, 2, N-2, N-1, Annex, uniform} x random identities, and master keys crafted as N - H1(ID||hid) so that extraction must report failure; the master public key is stored in the key object in six representations of the same point (what g_mul returns, affine, Z = 2, random Z, Z = R^-1, purely imaginary Z on G2). \
          Oracle: (Ha mod (N-1)) + 1 by BigUint; reference H1/H2; extracted keys == [k (H1+k)^-1]P1 / P2 on the affine reference; Annex ds_A and de_B. Non-trivial: boundary Ha, or an extraction compared.",
     );
     ctx.assume("reference hash-to-range and extraction (harness/src/refimpl/sm9.rs) reproduce the Annex ds_A, de_B and everything downstream of them");
@@ -203,8 +211,8 @@ pub fn run(ctx: &Ctx) {
     ctx.cold("cold_start_extraction", "key extraction (three kinds, and the crafted t1 = 0 case) as the first library operation of a fresh process", || {
         let mut v = Vec::new();
         for hid in 1..=3u8 {
-            v.push(Extract { hid, k: Hex(expand_bytes(hid as u64 ^ 0xc16d, 32)), craft_fail: false, id_len: 5, id_seed: hid as u64 });
-            v.push(Extract { hid, k: Hex(expand_bytes(hid as u64 ^ 0xc16e, 32)), craft_fail: true, id_len: 3, id_seed: hid as u64 ^ 9 });
+            v.push(Extract { hid, k: Hex(expand_bytes(hid as u64 ^ 0xc16d, 32)), craft_fail: false, id_len: 5, id_seed: hid as u64, pub_rep: hid });
+            v.push(Extract { hid, k: Hex(expand_bytes(hid as u64 ^ 0xc16e, 32)), craft_fail: true, id_len: 3, id_seed: hid as u64 ^ 9, pub_rep: hid });
         }
         v
     }, check_extract);
@@ -293,7 +301,7 @@ pub fn run(ctx: &Ctx) {
         vs.extend(gen::boundary_limb_values(n).into_iter().filter(|x| x.bits() > 1).step_by(11));
         let mut v = Vec::new();
         for (i, t) in vs.iter().enumerate() {
-            v.push(Extract { hid: 0x80 | (1 + (i % 3) as u8), k: gen::hex32(t), craft_fail: false, id_len: 1 + i % 17, id_seed: seed ^ (0x2e61 + i as u64) });
+            v.push(Extract { hid: 0x80 | (1 + (i % 3) as u8), k: gen::hex32(t), craft_fail: false, id_len: 1 + i % 17, id_seed: seed ^ (0x2e61 + i as u64), pub_rep: (i % 6) as u8 });
         }
         v
     }, check_extract);
@@ -307,7 +315,7 @@ pub fn run(ctx: &Ctx) {
                 continue;
             }
             // stored k is mapped to k mod (N-1) + 1
-            v.push(Extract { hid: 1 + (i % 3) as u8, k: gen::hex32(&(&k - 1u32)), craft_fail: false, id_len: 1 + i % 20, id_seed: seed ^ (0x2e16 + i as u64) });
+            v.push(Extract { hid: 1 + (i % 3) as u8, k: gen::hex32(&(&k - 1u32)), craft_fail: false, id_len: 1 + i % 20, id_seed: seed ^ (0x2e16 + i as u64), pub_rep: (i % 6) as u8 });
         }
         v
     }, check_extract);
@@ -319,17 +327,17 @@ pub fn run(ctx: &Ctx) {
             for (i, k) in [BigUint::zero(), BigUint::one(), n - 3u32, n - 2u32].iter().enumerate() {
                 // stored k is mapped to k % (N-1) + 1: 0 -> 1, 1 -> 2, N-3 -> N-2, N-2 -> N-1
                 for id_len in [0usize, 1, 5, 64] {
-                    v.push(Extract { hid, k: gen::hex32(k), craft_fail: false, id_len, id_seed: seed ^ (hid as u64 * 100 + i as u64 * 10 + id_len as u64) });
+                    v.push(Extract { hid, k: gen::hex32(k), craft_fail: false, id_len, id_seed: seed ^ (hid as u64 * 100 + i as u64 * 10 + id_len as u64), pub_rep: (i + id_len) as u8 % 6 });
                 }
             }
             for j in 0..12u64 {
-                v.push(Extract { hid, k: gen::hex32(&BigUint::zero()), craft_fail: true, id_len: (j * 7 % 40) as usize, id_seed: seed ^ (0xfa11 + j + hid as u64 * 1000) });
+                v.push(Extract { hid, k: gen::hex32(&BigUint::zero()), craft_fail: true, id_len: (j * 7 % 40) as usize, id_seed: seed ^ (0xfa11 + j + hid as u64 * 1000), pub_rep: (j % 6) as u8 });
             }
         }
         v
     }, check_extract);
 
     ctx.generated("extraction_generated", "proptest (kind, master key, identity 0..300 bytes, 1 in 8 crafted to fail)", ctx.tier.pick(1_200, 20_000), || {
-        (1..4u8, gen::scalar256(&r9::params().n), prop::bool::weighted(0.125), 0..=300usize, any::<u64>()).prop_map(|(hid, k, craft_fail, id_len, id_seed)| Extract { hid, k, craft_fail, id_len, id_seed })
+        (1..4u8, gen::scalar256(&r9::params().n), prop::bool::weighted(0.125), 0..=300usize, any::<u64>()).prop_map(|(hid, k, craft_fail, id_len, id_seed)| Extract { hid, k, craft_fail, id_len, id_seed, pub_rep: (id_seed >> 40) as u8 % 6 })
     }, check_extract);
 }
